@@ -244,6 +244,11 @@ class C09Precedence(Oracle):
         rep = [r.report["vehicle_id"] for r in ctx.reports_of(RT.INSTRUCTION)]
         if sorted(rep) != sorted(got):
             out.append(V("C09", "instruction_reports", k, f"instruction reports for {sorted(rep)} but final instructions for {sorted(got)}"))
+        # the state's own record of the step's instructions names nothing but this step's final instructions (a record left over
+        # from an earlier step would say that an instruction took effect in a step in which none was generated for that vehicle)
+        stale = sorted(vid for vid, ins in ctx.nxt.applied_instructions.items() if got.get(vid) != ins)
+        if stale:
+            out.append(V("C09", "stale_applied_instruction", k, f"applied_instructions after the step names {stale}, whose final instruction this step was {[got.get(v) for v in stale]}"))
         # only the final instruction can explain the vehicle's activity after the instructions were applied
         for vid, v1 in sim_out.vehicles.items():
             v0 = sim_in.vehicles.get(vid)
